@@ -378,6 +378,7 @@ func cmdCheck(args []string) int {
 		"partial correctness: termination is not proved",
 		"append never writes into spare capacity observed by another live slice (modelled as a fresh copy)",
 		"package-level variables keep the values their initialisers gave them",
+		"ghost counters / stream positions (spec/transport.spec) do not overflow 2^62",
 		fmt.Sprintf("input slices shorter than 2^%d elements", maxLenBits),
 	}
 	for m := range models {
@@ -397,7 +398,7 @@ func cmdCheck(args []string) int {
 	for k := range prog.Ifaces {
 		assumptions = append(assumptions, "environment contract assumed: "+k)
 	}
-	sort.Strings(assumptions[7:])
+	sort.Strings(assumptions[8:])
 	ev := map[string]interface{}{
 		"property_id": prop, "tier": *tier, "seed": seed, "level": "proof", "wall_s": round2(wall), "violations": violations,
 		"coverage": map[string]interface{}{
